@@ -1,3 +1,5 @@
+#[path = "../pratt.rs"]
+mod pratt;
 fn main() {
-    chumsky_verif_harness::pratt::main();
+    pratt::main();
 }
